@@ -31,7 +31,11 @@ Menu == { It("cmt", "", FALSE, <<>>), It("inc", "", FALSE, <<>>), It("abi", "", 
           It("var", "a", TRUE,  << <<L("/3")>>, <<L("/3/3")>> >>),
           It("var", "exec_path", TRUE,  << <<L("/o"), R("a"), R("a"), R("a")>> >>),
           \* an error in a variable the attachment does not use: it must be reported all the same
-          It("var", "b", TRUE,  << <<R("nodef"), L("/s")>> >>) }
+          It("var", "b", TRUE,  << <<R("nodef"), L("/s")>> >>),
+          \* names related by prefix (a / ab), and the parser's built-in name the library does not know
+          It("var", "ab", TRUE, << <<L("/w")>> >>),
+          It("var", "a", TRUE,  << <<R("ab"), L("/x")>> >>),
+          It("var", "exec_path", TRUE, << <<L("/o"), R("profile_name"), R("a")>> >>) }
 Atts == << <<R("exec_path")>> >>
 
 \* the preamble is built item by item, so that TLC's workers share the exploration
@@ -39,7 +43,7 @@ Init == pre = <<>> /\ k = 0 /\ folded = [pre |-> <<>>, out |-> "none"]
 Extend == /\ k = 0 /\ Len(pre) < MaxLen
           /\ \E it \in Menu : pre' = Append(pre, [it EXCEPT !.id = Len(pre) + 1])
           /\ UNCHANGED <<k, folded>>
-Fold == k = 0 /\ pre # <<>> /\ k' = 1 /\ folded' = FoldNew(pre, 1, <<>>, [n \in {"a", "b", "nodef", "exec_path"} |-> 0]) /\ UNCHANGED pre
+Fold == k = 0 /\ pre # <<>> /\ k' = 1 /\ folded' = FoldNew(pre, 1, <<>>, [n \in {"a", "b", "ab", "nodef", "profile_name", "exec_path"} |-> 0]) /\ UNCHANGED pre
 Spec == Init /\ [][Extend \/ Fold]_vars
 
 Judged == ~AppendBeforeDef(pre) /\ ~Cyclic(pre)
